@@ -9,5 +9,6 @@ CONSTANTS
  FixNifty = FALSE
  AtomicAdopt = TRUE
  RefreshExpected = TRUE
+ ReleaseLast = TRUE
 INVARIANT FreedAtExit
 CHECK_DEADLOCK FALSE
